@@ -49,7 +49,23 @@ impl Args {
                 }
                 "--maxn" => a.maxn = it.next().expect("--maxn V").parse().unwrap(),
                 "--only" => a.only = Some(it.next().expect("--only V")),
-                "--flavours" => a.flavours = Some(it.next().expect("--flavours V").split(',').map(|s| s.to_string()).collect()),
+                "--flavours" => {
+                    // split on commas outside parentheses: "(u8,u16)" is one flavour name
+                    let v = it.next().expect("--flavours V");
+                    let mut out: Vec<String> = Vec::new();
+                    let mut cur = String::new();
+                    let mut depth = 0i32;
+                    for ch in v.chars() {
+                        match ch {
+                            '(' | '[' => { depth += 1; cur.push(ch) }
+                            ')' | ']' => { depth -= 1; cur.push(ch) }
+                            ',' if depth == 0 => out.push(std::mem::take(&mut cur)),
+                            _ => cur.push(ch),
+                        }
+                    }
+                    out.push(cur);
+                    a.flavours = Some(out);
+                }
                 "--budget" => a.budget = Some(it.next().expect("--budget V").parse().unwrap()),
                 "--part" | "--parts" => a.parts = Some(it.next().expect("--part V").split(',').map(|s| s.to_string()).collect()),
                 "--trace" => a.trace = true,
